@@ -99,14 +99,26 @@ fn interpret8(start: Sty, text: &Sink<8>, strip: &mut StripModel, visible: &mut 
 /// count and the failing call are symbolic.
 macro_rules! colored_case {
     ($name:ident, $has_fg:expr, $has_bg:expr, $fail_at:expr) => {
+        colored_case!($name, $has_fg, $has_bg, $fail_at, None);
+    };
+    ($name:ident, $has_fg:expr, $has_bg:expr, $fail_at:expr, $len:expr) => {
         #[kani::proof]
         #[kani::unwind(10)]
         fn $name() {
             let fg = if $has_fg { Some(any_ansi()) } else { None };
             let bg = if $has_bg { Some(any_ansi()) } else { None };
             let data: [u8; 3] = kani::any();
-            let len: usize = kani::any();
-            kani::assume(len <= 3);
+            // quick tier: concrete data length (a symbolic slice length triples the cost of
+            // the no-failure queries); the accepted count stays symbolic
+            let len_opt: Option<usize> = $len;
+            let len: usize = match len_opt {
+                Some(l) => l,
+                None => {
+                    let l: usize = kani::any();
+                    kani::assume(l <= 3);
+                    l
+                }
+            };
             let accept: usize = kani::any();
             // the failing inner call is concrete per query (a symbolic one multiplies the
             // formatting machinery); its kind, the colours, the data and the accepted count are symbolic
@@ -190,6 +202,9 @@ macro_rules! colored_case {
 }
 
 colored_case!(colored_fg_bg_ok, true, true, NEVER);
+colored_case!(colored_fg_bg_ok2, true, true, NEVER, Some(2));
+colored_case!(colored_fg_only_ok2, true, false, NEVER, Some(2));
+colored_case!(colored_bg_only_ok2, false, true, NEVER, Some(2));
 colored_case!(colored_fg_bg_fail0, true, true, 0);
 colored_case!(colored_fg_bg_fail1, true, true, 1);
 colored_case!(colored_fg_bg_fail2, true, true, 2);
